@@ -9,16 +9,25 @@ HARNESS_BIN = "c01"
 NCASES = {"quick": 9000, "thorough": 120000}
 CASE_TIMEOUT = {"quick": 30, "thorough": 120}
 
-LEVEL_TEXT = ("Machine-checked Coq theorems over word lists of an arbitrary word size: faithful models of the carry/borrow kernels "
-              "(add.rs), of the word/double-word/schoolbook/Karatsuba multipliers, of the chunk splitting helper, of the size "
-              "dispatch with the thresholds read from the source, of the schoolbook squaring, and of the Small/Large arms of "
-              "+ - * sqr pow, are proved to return exactly a+b, a-b (or the NegativeUBig panic), a*b, a^2, a^n for ALL operands; "
-              "the IBig sign tables are regenerated from the source and proved equal to Z.add/Z.sub/Z.mul. Toom-3 is modelled "
-              "at value level (evaluation/interpolation sequence with its exact divisions and sign handling, real recursion "
-              "structure); its slice/carry bookkeeping is tied by the correspondence run through the kernel hook only.")
-LEVEL_NOTE = ("Trusted: Coq kernel, translator (thresholds, sign tables), extraction + FastZ.v, zarith, harness. Not proved: the "
-              "Toom-3 slice/deferred-carry bookkeeping (compared through the kernel hook at every length class), Buffer capacity "
-              "management and the unsafe Repr transmute (C17), primitive-operand forwarding (compared only).")
+LEVEL_TEXT = ("Machine-checked Coq theorems (28 pinned in coq/props/C01.v, no axioms) over word lists of an arbitrary word size "
+              "w >= 8 and for ALL operand lengths: faithful word-level models of the carry/borrow kernels of add.rs (incl. "
+              "sub_in_place_with_sign), of the word/double-word multipliers, the schoolbook rows (carry_plus_max trick), "
+              "helpers::add_signed_mul_split_into_chunks, Karatsuba with its deferred carries, the size dispatch (proved for "
+              "every admissible threshold triple; the thresholds regenerated from the source are proved admissible; the fuel "
+              "of the recursive definitions is proved sufficient), sqr::simple::square with its three carry bits, and of the "
+              "Small/Large arms of + - * sqr cubic pow (add_dword spill, add_large, sub_large_ref_val, mul_large_dword with "
+              "the power-of-two shortcut, square shortcut, max_exp_in_word lifting, the three pow loops, factor-2 removal, "
+              "sign rules) are proved to return exactly a+b, a-b (Panic NegativeUBig exactly when a<b and no other panic), "
+              "a*b, a^2, a^3, a^n, normalised and inline iff <= 2 words; every kernel carry is proved to be in {-1,0,1} / 0 "
+              "where the code debug_asserts it. The IBig sign tables are regenerated from the source and proved equal to "
+              "Z.add/Z.sub/Z.mul. Toom-3 is modelled with its real recursion (five word-level products) and its "
+              "evaluation/interpolation at value level: proved that no 'never negative' subtraction goes negative, both "
+              "divisions are exact, intermediates fit their buffers, result = c + sign*a*b.")
+LEVEL_NOTE = ("Trusted: Coq kernel, translator (thresholds, sign tables), extraction + FastZ.v, zarith, harness. Not proved: that the "
+              "hand-written models transcribe the Rust (measured on every run: model_fidelity same/diff per case, incl. kernel "
+              "hooks at every length class); the Toom-3 slice/deferred-carry bookkeeping (value-level model; compared through "
+              "the kernel hook); shifts inside pow are modelled by their value (C09); Buffer capacity management, scratch "
+              "memory sizes and the unsafe Repr transmute (C17); primitive-operand forwarding and the assign forms (compared only).")
 TECHNIQUE = "Coq proof of as-is word-level models = Z specification + extracted-spec correspondence run incl. kernel hooks"
 RULE = ("cases = operation x call form {vv,vr,rv,rr,av,ar} x operand word counts from {0,1,2,3,4,5} u {T-1,T,T+1 for T in "
         "24 (schoolbook), 30 (squaring), 192 (Karatsuba)} u multiples/unbalanced lengths (k*n+r, 1025+ for the chunked schoolbook) "
@@ -29,10 +38,12 @@ RULE = ("cases = operation x call form {vv,vr,rv,rr,av,ar} x operand word counts
         "around its minimum and the thresholds with random/all-ones/zero accumulators and both signs, sqr_kernel at 2..3*30. "
         "non-trivial = the oracle evaluated the Coq specification and the operands are not both zero; distinct = distinct case texts.")
 EXPLANATION = ("Theorems (coq/props/C01.v): every kernel of add.rs/mul/*.rs/sqr modelled over word lists satisfies its value contract "
-               "c' + carry*B^n = c + sign*a*b for all inputs and all word sizes; the Small/Large operator arms equal Z arithmetic; "
-               "the regenerated sign tables equal Z.add/Z.sub/Z.mul. Tie to the code: thresholds and tables re-translated from the "
-               "source on every run; public operators and hook-driven kernels compared with the extracted specification (GMP "
-               "integers) and with the extracted as-is models (fidelity statistic).")
+               "c' + carry*B^n = c + sign*a*b for all inputs, all lengths and all word sizes; the Small/Large operator arms of "
+               "+ - * sqr cubic pow equal Z arithmetic for every ownership form; the regenerated sign tables equal "
+               "Z.add/Z.sub/Z.mul. Tie to the code: thresholds and tables re-translated from the source on every run (the "
+               "admissibility lemma fails to compile if a threshold violates a MIN_LEN); public operators and hook-driven "
+               "kernels compared with the extracted specification (GMP integers) and with the extracted as-is models "
+               "(fidelity statistic).")
 TRUSTED_BASE = [
     "Coq 8.16.1 kernel (coqc, full .vo build)",
     "tools/translate.py renders THRESHOLD_SIMPLE/THRESHOLD_KARATSUBA/MIN_LEN/CHUNK_LEN/MAX_LEN_SIMPLE and impl_ibig_add/sub/mul faithfully (add->Z.add, sub_signed->Z.sub, with_sign->signed)",
